@@ -351,6 +351,16 @@ theorem tRx_mismatch (c : Cfg) (t : TState) (req : Pdu) (h : req.didAttr ≠ c.t
     cases loc <;> cases req <;> simp [tRx, tRx.tRxActive, h]
   · simp [tRx, hr]
 
+/-- ... nor changes anything in the Target, except that `clf.listen` has returned (`listen -> first`) -/
+theorem tRx_foreign (c : Cfg) (t : TState) (req : Pdu) (h : req.didAttr ≠ c.tdid) :
+    (tRx c t (.frame req)).2 = none ∧
+    ((tRx c t (.frame req)).1 = t ∨ (t.loc = .listen ∧ (tRx c t (.frame req)).1 = { t with loc := .first })) := by
+  obtain ⟨pni, loc, depRes, tosend, got, status⟩ := t
+  by_cases hr : status = .running
+  · subst hr
+    cases loc <;> cases req <;> simp [tRx, tRx.tRxActive, h]
+  · simp [tRx, hr]
+
 theorem tRx_atn_got (c : Cfg) (t : TState) : (tRx c t (.frame (atnPdu c))).1.got = t.got := by
   have key : ∀ did, (tRx c t (.frame (.dep fATN 0 did none []))).1.got = t.got := by
     intro did
